@@ -117,6 +117,7 @@ type execCase struct {
 	Verify bool              `json:"verify"` // run the C12 verifier + dynamic monitor
 	Dump   bool              `json:"dump"`   // return the canonical code dump hash
 	Recomp int               `json:"recomp"` // extra compilations whose dump must equal the first
+	NoRun  bool              `json:"norun"`  // compile (+verify/dump) only
 	Post   string            `json:"post"`   // optional second program run in a *fresh* context afterwards (C08 sequential isolation)
 }
 
@@ -146,14 +147,14 @@ func execHandler(raw json.RawMessage) map[string]interface{} {
 		}
 		paths = []string{dir}
 	}
-	runOne(c.Src, c.Mode, paths, c.Verify, c.Dump, c.Recomp, res, "")
+	runOne(c.Src, c.Mode, paths, c.Verify, c.Dump, c.Recomp, res, "", c.NoRun)
 	if c.Post != "" {
-		runOne(c.Post, c.Mode, paths, false, false, 0, res, "post_")
+		runOne(c.Post, c.Mode, paths, false, false, 0, res, "post_", false)
 	}
 	return res
 }
 
-func runOne(src, modeS string, paths []string, verify, dump bool, recomp int, res map[string]interface{}, pfx string) {
+func runOne(src, modeS string, paths []string, verify, dump bool, recomp int, res map[string]interface{}, pfx string, norun bool) {
 	mode := py.ExecMode
 	switch modeS {
 	case "eval":
@@ -211,6 +212,9 @@ func runOne(src, modeS string, paths []string, verify, dump bool, recomp int, re
 					res[pfx+"dynerrs"] = mon.errors
 				}
 			}()
+		}
+		if norun {
+			return
 		}
 		val, err := ctxRun(ctx, code)
 		if err != nil {
